@@ -74,7 +74,22 @@ def norm_sel(t: sp.Basic) -> sp.Basic:
                 return op("trapz", n.args[0], Str("frequency"))
         return None
 
-    return T.rewrite(t, fn)
+    t = T.rewrite(t, fn)
+
+    # an element-wise function of arrays selected at an index is that function of the selected arrays:
+    # (atan2(b, a) * 180/pi)[i] == atan2(b[i], a[i]) * 180/pi
+    def push(n):
+        if fname(n) == "sel" and len(n.args) == 2:
+            inner, idx = n.args
+            if isinstance(inner, (sp.Add, sp.Mul)) or isinstance(inner, (sp.atan2, sp.Pow, sp.cos, sp.sin, sp.exp, sp.log, sp.Abs)) \
+                    or fname(inner) == "pymod":
+                new_args = [a if (a.is_number or not a.has(DS)) else push(op("sel", a, idx)) or op("sel", a, idx) for a in inner.args]
+                try:
+                    return inner.func(*new_args)
+                except Exception:
+                    return None
+        return None
+    return T.rewrite(t, push)
 
 
 def moment_ref(e1d, n, fmin=FMIN, fmax=FMAX):
